@@ -5,6 +5,8 @@ type nat =
 | O
 | S of nat
 
+val option_map : ('a1 -> 'a2) -> 'a1 option -> 'a2 option
+
 val fst : ('a1 * 'a2) -> 'a1
 
 val snd : ('a1 * 'a2) -> 'a2
@@ -18,7 +20,11 @@ type comparison =
 | Lt
 | Gt
 
+val compOpp : comparison -> comparison
+
 val add : nat -> nat -> nat
+
+val sub : nat -> nat -> nat
 
 type positive =
 | XI of positive
@@ -28,6 +34,11 @@ type positive =
 type n =
 | N0
 | Npos of positive
+
+type z =
+| Z0
+| Zpos of positive
+| Zneg of positive
 
 module Nat :
  sig
@@ -48,6 +59,10 @@ module Coq_Pos :
  sig
   val succ : positive -> positive
 
+  val add : positive -> positive -> positive
+
+  val add_carry : positive -> positive -> positive
+
   val pred_double : positive -> positive
 
   type mask = Pos.mask =
@@ -64,6 +79,8 @@ module Coq_Pos :
   val sub_mask : positive -> positive -> mask
 
   val sub_mask_carry : positive -> positive -> mask
+
+  val mul : positive -> positive -> positive
 
   val size : positive -> positive
 
@@ -86,7 +103,11 @@ module N :
 
   val double : n -> n
 
+  val add : n -> n -> n
+
   val sub : n -> n -> n
+
+  val mul : n -> n -> n
 
   val compare : n -> n -> comparison
 
@@ -121,13 +142,56 @@ val ascii_of_N : n -> char
 
 val ascii_of_nat : nat -> char
 
+val n_of_digits : bool list -> n
+
+val n_of_ascii : char -> n
+
+val nat_of_ascii : char -> nat
+
+val rev : 'a1 list -> 'a1 list
+
 val map : ('a1 -> 'a2) -> 'a1 list -> 'a2 list
 
+val existsb : ('a1 -> bool) -> 'a1 list -> bool
+
 val forallb : ('a1 -> bool) -> 'a1 list -> bool
+
+val skipn : nat -> 'a1 list -> 'a1 list
+
+module Z :
+ sig
+  val double : z -> z
+
+  val succ_double : z -> z
+
+  val pred_double : z -> z
+
+  val pos_sub : positive -> positive -> z
+
+  val add : z -> z -> z
+
+  val opp : z -> z
+
+  val sub : z -> z -> z
+
+  val compare : z -> z -> comparison
+
+  val ltb : z -> z -> bool
+
+  val to_nat : z -> nat
+
+  val of_nat : nat -> z
+
+  val of_N : n -> z
+ end
 
 val eqb0 : char list -> char list -> bool
 
 val append : char list -> char list -> char list
+
+val string_of_list_ascii : char list -> char list
+
+val list_ascii_of_string : char list -> char list
 
 type err =
 | ErrValue
@@ -146,11 +210,15 @@ type 'a result =
 | OK of 'a
 | Error of err
 
+val bind : 'a1 result -> ('a1 -> 'a2 result) -> 'a2 result
+
 val err_name : err -> char list
 
 val mem_str : char list -> char list list -> bool
 
 val list_str_eqb : char list list -> char list list -> bool
+
+val join_str : char list -> char list list -> char list
 
 val digit_char : nat -> char
 
@@ -158,13 +226,27 @@ val dec_N_fuel : nat -> n -> char list -> char list
 
 val dec_N : n -> char list
 
+val dec_Z : z -> char list
+
 val dec_nat : nat -> char list
+
+val is_digit : char -> bool
+
+val parse_N_acc : char list -> n -> n option
+
+val parse_N : char list -> n option
+
+val parse_Z : char list -> z option
 
 type sexp =
 | SAtom of char list
 | SList of sexp list
 
+val s_str : char list -> sexp
+
 val s_strs : char list list -> sexp
+
+val s_Z : z -> sexp
 
 val s_nat : nat -> sexp
 
@@ -181,6 +263,10 @@ val d_str : sexp -> char list option
 val d_list : (sexp -> 'a1 option) -> sexp list -> 'a1 list option
 
 val d_strs : sexp -> char list list option
+
+val d_Z : sexp -> z option
+
+val d_nat : sexp -> nat option
 
 val bad_input : sexp
 
@@ -258,5 +344,225 @@ val builtin_names : (char list * char list) list
 val documented : char list list
 
 val math_env : menv
+
+type chars = char list
+
+val to_chars : char list -> chars
+
+val of_chars : chars -> char list
+
+val is_ws : char -> bool
+
+val is_star : char -> bool
+
+val lstrip : chars -> chars
+
+val strip_stars_rev : chars -> chars * nat
+
+val prefix_chars : chars -> chars -> bool
+
+val const_kw : chars
+
+type parsed = { p_name : char list; p_depth : nat; p_const : bool }
+
+val parse_chars : chars -> (chars * nat) * bool
+
+val parse_type : char list -> parsed
+
+val stars : nat -> char list
+
+val str_parsed : parsed -> char list
+
+type terminal = { t_type : char list; t_depth : nat; t_const : bool;
+                  t_tree : char list option }
+
+val mk_term : char list -> nat -> terminal
+
+val term_of_parsed : parsed -> terminal
+
+val str_terminal : terminal -> char list
+
+val tree_type : terminal -> terminal
+
+type cpptype =
+| TTerm of terminal
+| TColl of terminal * terminal
+
+val view : cpptype -> terminal
+
+val is_coll : cpptype -> bool
+
+val vector_of : terminal -> cpptype
+
+type minfo = { mi_type : cpptype; mi_deref : z }
+
+type mkey = char list * char list
+
+val mkey_eqb : mkey -> mkey -> bool
+
+type mreg = (mkey * minfo) list
+
+val add_method : mreg -> char list -> char list -> minfo -> mreg
+
+val method_type_info : mreg -> char list -> char list -> minfo option
+
+val is_dot : char -> bool
+
+val split_dot_aux : char list -> char list -> char list list
+
+val split_dot : char list -> char list list
+
+val replace_dot : char list -> char list
+
+type enum_def = { en_path : char list list; en_name : char list;
+                  en_values : char list list }
+
+type ereg = enum_def list
+
+val is_prefix : char list list -> char list list -> bool
+
+val ns_exists : ereg -> char list list -> bool
+
+val find_enum : ereg -> char list list -> char list -> enum_def option
+
+val define_enum : ereg -> char list -> char list -> char list list -> ereg
+
+val ns_full_name : char list list -> char list
+
+val enum_full_name : enum_def -> char list
+
+val value_as_cpp : enum_def -> char list -> char list
+
+type method_md = { md_type_string : char list option;
+                   md_method_name : char list option;
+                   md_return_type : char list option;
+                   md_elem : char list option; md_coll : char list option;
+                   md_tree : char list option; md_deref : z option }
+
+type md_item =
+| MdMethod of method_md
+| MdEnum of char list * char list * char list list
+| MdOther
+
+type registry = { r_methods : mreg; r_enums : ereg }
+
+val empty_registry : registry
+
+val md_return : method_md -> cpptype result
+
+val md_method : mreg -> method_md -> mreg result
+
+val md_step : registry -> md_item -> registry result
+
+val process_md : registry -> md_item list -> registry result
+
+val wrap_deref : nat -> char list -> char list
+
+val member_access : char list -> nat -> z -> char list
+
+val base_types : char list list
+
+val warn_text : char list -> char list -> char list
+
+val determine_type_mf :
+  mreg -> terminal -> char list -> (minfo * char list list) result
+
+type vkind =
+| KValue
+| KColl
+| KEnumVal
+
+type rep =
+| RVal of char list * cpptype * vkind
+| RNs of char list list
+| REnum of enum_def
+
+type arg =
+| ALit of char list
+| AName of char list * char list list
+
+type step =
+| SCall of char list * arg list
+| SAttr of char list
+| SIndex of char list
+
+type 'a out = ('a * char list list) result
+
+val do_attr : registry -> rep -> char list -> rep out
+
+val do_attrs : registry -> rep -> char list list -> rep out
+
+val rep_as_cpp : rep -> char list result
+
+val do_arg : registry -> arg -> char list out
+
+val do_args : registry -> arg list -> char list list out
+
+val do_call : registry -> rep -> char list -> arg list -> rep out
+
+val do_index : rep -> char list -> rep out
+
+val do_step : registry -> rep -> step -> rep out
+
+val do_steps : registry -> rep -> step list -> rep out
+
+val dereference_once : char list -> terminal -> char list
+
+val do_iter : rep -> char list -> (char list * rep) result
+
+type prog = { pg_levels : step list list; pg_last : step list;
+              pg_vec : step list option }
+
+type emitted = { em_loops : char list list; em_decl : char list;
+                 em_stmt : char list; em_warn : char list list }
+
+val it_name : nat -> char list
+
+val do_levels :
+  registry -> rep -> nat -> step list list -> (((rep * nat) * char list
+  list) * char list list) result
+
+val column_value : char list -> cpptype -> char list * char list
+
+val column_vector : char list -> cpptype -> char list * char list
+
+val translate : registry -> rep -> prog -> emitted result
+
+val run_query :
+  md_item list -> char list -> char list -> nat -> prog -> emitted result
+
+val s_parsed : parsed -> sexp
+
+val run_parse : sexp -> sexp
+
+val run_access : sexp -> sexp
+
+val d_opt : (sexp -> 'a1 option) -> sexp -> 'a1 option option
+
+val s_opt : ('a1 -> sexp) -> 'a1 option -> sexp
+
+val s_terminal : terminal -> sexp
+
+val s_cpptype : cpptype -> sexp
+
+val d_md : sexp -> md_item option
+
+val d_mds : sexp -> md_item list option
+
+val run_lookup : sexp -> sexp
+
+val run_enum : sexp -> sexp
+
+val d_arg : sexp -> arg option
+
+val d_step : sexp -> step option
+
+val d_steps : sexp -> step list option
+
+val d_prog : sexp -> prog option
+
+val s_emitted : emitted -> sexp
+
+val run_translate : sexp -> sexp
 
 val dispatch : char list -> sexp -> sexp
